@@ -43,6 +43,26 @@ CLAIMS = {
        "consuming loads acquire. It does not decide the counting protocol over interleavings or fairness.",
   note="Trusted: clang AST/CFG; std::atomic member calls resolved to (object path, operation, evaluated memory order).",
   design_ref="DESIGN.md §3 C11, §2 G/L2/A1/A3/E"),
+ "C10": dict(
+  technique="static analysis: atomic access table (object path, op, evaluated order), fresh-object publication order by dominance/reachability",
+  text="Decides the publication-order half of C10: every atomic store whose target a reader can reach (root, link slot or "
+       "mask of a non-fresh node) is release; every load in find() is acquire; each fresh node is completely initialised "
+       "(prefix, depth, parent, mask/value or all 16 link slots, old subtree linked) on every path before the store that "
+       "publishes it and no write to a fresh node can follow any publishing store; a value is constructed before its mask "
+       "bit is set with old|bit; erase clears one bit with release and frees nothing; find() returns a value only under "
+       "prefix match and acquire-loaded bit. Does not decide the happens-before argument over all interleavings.",
+  note="Trusted: clang AST/CFG; freshness = local initialised from frg::construct<> in the same activation, alias-resolved through casts.",
+  design_ref="DESIGN.md §3 C10, §2 A1/A2"),
+ "C09": dict(
+  technique="static analysis: interval analysis of shift counts with branch refinement; index-provenance and sibling agreement of the three descents",
+  text="Decides structural clauses of C09: the shift counts in pfx_of/idx_of stay in [0,64) for every depth in [0,15] "
+       "(branch-refined intervals); every subscript of a node's links/entries in find/find_or_insert/erase is idx_of(key, "
+       "that node's own depth) and mask bits use the same index; the three descents agree on the prefix and leaf tests; "
+       "entry storage is never freed/copied outside the destructor and values are constructed only into fresh leaves or "
+       "under a clear mask bit; 'not inserted' is reported only on the bit-set path. Does not decide exactness of the map "
+       "or iteration order over runtime key sets.",
+  note="Trusted: clang AST/CFG; depth domain [0, ll] from the class's own constant.",
+  design_ref="DESIGN.md §3 C09, §2 B3/E"),
 }
 
 NOT_YET = "check not built yet in this revision (see DESIGN.md §7 order of work); not claimed until it exists"
